@@ -2,8 +2,10 @@ package props
 
 import (
 	stdjson "encoding/json"
+	"fmt"
 	"regexp"
 	"strings"
+	"time"
 	"unicode/utf8"
 
 	jp "github.com/evanphx/json-patch/v5"
@@ -210,6 +212,70 @@ func init() {
 				}
 				if c.WantSample() {
 					c.Sample(d)
+				}
+			}},
+			{Name: "results-nested-deeper-than-the-decoder-reads", Exhaustive: true, Guard: 400 * time.Second, Count: func(core.Tier) int { return 8 }, Run: func(c *core.Ctx, idx int) {
+				// two deep members, one moved (or added) to the bottom of the other: every part is valid where it
+				// comes from, the result is nested deeper than the 10 000 levels the library itself accepts
+				kind, how := idx%2, (idx/2)%2
+				d1, d2 := 6000, 6000
+				if idx >= 4 {
+					d1, d2 = 9000, 1500
+				}
+				open, close, tok, last := "[", "]", "/0", "/-"
+				if kind == 1 {
+					open, close, tok, last = `{"k":`, "}", "/k", "/z"
+				}
+				deep := func(n int, leaf string) string { return strings.Repeat(open, n) + leaf + strings.Repeat(close, n) }
+				leaf := "[]"
+				if kind == 1 {
+					leaf = "{}"
+				}
+				doc := `{"a":` + deep(d1, leaf) + `,"b":` + deep(d2, leaf) + `}`
+				var patch string
+				if how == 0 {
+					patch = PatchText([]string{OpText("move", "/b"+strings.Repeat(tok, d2)+last, "/a", "", false)})
+				} else {
+					patch = PatchText([]string{OpText("add", "/b"+strings.Repeat(tok, d2)+last, "", deep(d1, leaf), true)})
+				}
+				o := V5Opts{NegIdx: true, EscapeHTML: true}
+				res := ApplyV5(doc, patch, o, "")
+				ri := ApplyV5(doc, patch, o, " ")
+				c.Eval(2)
+				d := map[string]any{"document": fmt.Sprintf("{\"a\": %d nested, \"b\": %d nested} (kind %d)", d1, d2, kind), "operation": []string{"move /a to the bottom of /b", "add a value as deep as /a at the bottom of /b"}[how],
+					"apply_error": errText(res.Err), "apply_output_bytes": len(res.Out), "applyindent_error": errText(ri.Err), "applyindent_output_bytes": len(ri.Out)}
+				if res.Panic != nil || ri.Panic != nil {
+					c.Violation("deep-result:panic", d)
+					return
+				}
+				c.Count("deep-results:cases")
+				if res.Err != nil {
+					// refusing to build such a document is fine; then ApplyIndent must refuse too
+					if ri.Err == nil {
+						c.Violation("deep-result:ApplyIndent-succeeds-where-Apply-fails", d)
+					}
+					return
+				}
+				got, err := jr.ParseMaxDepth(res.Out, 1<<30)
+				if err != nil || !utf8.Valid(res.Out) {
+					c.Violation("Apply:output-is-not-wellformed-json", d)
+					return
+				}
+				depth := got.Depth()
+				d["result_nesting_depth"] = depth
+				if ri.Err == nil && string(ri.Out) != refenc.Indent(string(res.Out), " ") {
+					// whatever the depth: a successful ApplyIndent returns Apply's output re-indented
+					c.Violation("ApplyIndent-differs-from-reindented-Apply", d)
+					return
+				}
+				if depth > jr.MaxDepth {
+					// known finding F03 when listed: a successful result that the library itself does not accept as
+					// input (and, consequently, an ApplyIndent that cannot indent it)
+					c.Violation("Apply:result-nested-deeper-than-the-library-accepts", d, "F03")
+					return
+				}
+				if ri.Err != nil {
+					c.Violation("ApplyIndent-fails-where-Apply-succeeds", d)
 				}
 			}},
 			{Name: "passing-tests-invariance", Count: n(30000, 700000), Run: func(c *core.Ctx, idx int) {
